@@ -20,9 +20,9 @@ func specTimestampValid(secs int64, nanos int32) bool {
 	return specMinSeconds <= secs && secs <= specMaxSeconds && 0 <= nanos && nanos <= 999999999
 }
 
-//@ props C43
-//@ mode int
-//@ inline GetSeconds GetNanos
+// @ props C43
+// @ mode int
+// @ inline GetSeconds GetNanos
 func contract_Timestamp_check(x *Timestamp) (code uint) {
 	ensures(imp(x == nil, code == invalidNil))
 	ensures(imp(x != nil, iff(code == 0, specTimestampValid(x.Seconds, x.Nanos))))
@@ -32,8 +32,8 @@ func contract_Timestamp_check(x *Timestamp) (code uint) {
 	return
 }
 
-//@ props C43
-//@ mode int
+// @ props C43
+// @ mode int
 func contract_Timestamp_IsValid(x *Timestamp) (ok bool) {
 	ensures(ok == (x != nil && specTimestampValid(x.Seconds, x.Nanos)))
 	return
